@@ -516,7 +516,7 @@ impl<'r> Gen<'r> {
                 let mut kvs: Vec<(Val, Val)> = Vec::new();
                 for _ in 0..n {
                     let k = match kt {
-                        KeyTy::Str | KeyTy::NewtypeStr(_) => {
+                        KeyTy::Str | KeyTy::NewtypeStr(_) | KeyTy::SpannedStr => {
                             let used: Vec<String> = kvs.iter().filter_map(|(k, _)| if let Val::Str(s) = k { Some(s.clone()) } else { None }).collect();
                             Val::Str(self.name(&used))
                         }
